@@ -215,6 +215,14 @@ def frame_monitor(before_copy, live_ids, after, nt, path, fails, identity=True):
                                                 f'a different object'))
         elif ent[0] == 'd' and isinstance(oldv, Mapping) and isinstance(after.get(key), Mapping):
             frame_monitor(oldv, live_ids, after[key], ent[1], p, fails, identity)
+    # "changes only the paths the incoming mapping names": a key that was not there and that no incoming key
+    # formats to is a changed path the mapping does not name (e.g. an entry stored under its UNFORMATTED key)
+    if isinstance(after, Mapping) and not any(e[0] == '?' for e in nt.values()):
+        for key in after:
+            if key not in before_copy and key not in nt:
+                fails.append(('frame-added', f'{fmt_path(path + [key])} was added although no incoming key formats to '
+                                             f'{key!r} at this level (incoming keys format to '
+                                             f'{[k for k in nt][:6]!r})'))
 
 
 def path_key(k):
@@ -302,6 +310,49 @@ def table_monitor(before_copy, after, nt, path, fails, fb, fa):
                     and (not stable or len(new) == len(set(old) | set(fv)))):
                 fails.append(('table-extend', f'{fmt_path(p)}: set must be the union of old and incoming: '
                                               f'{stable_repr(new)[:80]}'))
+
+
+def keys_monitor(add, before, after, fb, fa, path, fails, defaults, new_path=False, depth=0):
+    """"Both apply formatting to incoming keys": read off the incoming mapping alone, level by level, for keys of
+    EVERY hashable kind (str, int, bool, None, float, bytes, tuple, frozenset, nested ones - `get_formatted_value`
+    formats the str members of tuple / frozenset keys; special tags are unhashable and cannot be keys). For every
+    incoming entry whose key formats - to the same thing against the context before and after the call - to `fk`:
+    `fk` is a key of the mapping at that level afterwards, and when `fk` differs from the raw key `k`, `k` itself is
+    NOT a key there (unless it was one before or another incoming key formats to it). The walk follows the entry
+    into an existing mapping (mapping x mapping: merge_recurse / defaults_recurse walk it themselves) and below a
+    path that is new (`new_path`: that subtree is formatted as a whole)."""
+    if depth > MAX_DEPTH or not isinstance(add, Mapping) or not isinstance(after, Mapping):
+        return
+    ents, targets = [], []
+    for k, v in list(add.items()):
+        (okb, kb), (oka, ka) = fb(k), fa(k)
+        if not (okb and oka) or not hashable(kb) or not deep_equal(kb, ka):
+            return                                   # a key without a stable formatted form: no claim at this level
+        ents.append((k, v, kb))
+        targets.append(kb)
+    for k, v, fk in ents:
+        p = path + [fk]
+        where = 'below the new path ' + fmt_path(path) if new_path else 'at ' + fmt_path(path)
+        if fk not in after:
+            if not (defaults and new_path is False and isinstance(before, Mapping) and fk in before):
+                fails.append(('key-not-formatted',
+                              f'incoming key {k!r} ({type(k).__name__}) {where} formats to {fk!r}: {fmt_path(p)} must '
+                              f'exist afterwards, keys found there: {list(after)[:8]!r}'))
+            continue
+        if not deep_equal(fk, k) and hashable(k):
+            was = isinstance(before, Mapping) and any(deep_equal(k, b) for b in before) and not new_path
+            named = any(deep_equal(k, t) for t in targets)
+            if not was and not named and any(deep_equal(k, a) for a in after):
+                fails.append(('key-not-formatted',
+                              f'incoming key {k!r} ({type(k).__name__}) {where} must be formatted to {fk!r}; the '
+                              f'UNFORMATTED key is a key of the context afterwards: {list(after)[:8]!r}'))
+        if is_strlike(v) or not isinstance(v, Mapping) or not isinstance(after.get(fk), Mapping):
+            continue
+        old = before.get(fk, _ABSENT) if isinstance(before, Mapping) and not new_path else _ABSENT
+        if old is _ABSENT:
+            keys_monitor(v, None, after[fk], fb, fa, p, fails, defaults, True, depth + 1)
+        elif isinstance(old, Mapping):
+            keys_monitor(v, old, after[fk], fb, fa, p, fails, defaults, False, depth + 1)
 
 
 def same_mergeable_kind(old, v):
@@ -711,6 +762,8 @@ def run_one(ctx, op, add, use_ref=True, effects=False):
                 atomic_monitor(before_copy.copy, after, nt, [], fails)
             if err is None:
                 NAMED.append(flat_named(nt, before_copy.copy, op in ('defaults', 'step-default')))
+            if err is None:
+                keys_monitor(add, before_copy.copy, after, fb, fa, [], fails, op in ('defaults', 'step-default'))
             if op in ('merge', 'step-merge'):
                 frame_monitor(before_copy.copy, live_ids, after, nt, [], fails)
                 if err is None:
@@ -886,7 +939,96 @@ def directed_cases():
             out.append({'stream': f'step:{op}:names-own-key', 'op': op,
                         'ctx': {'d': base + [[key, D(['a', 1], [key, repl])]]}})
     return (out + format_once_cases() + sequence_cases() + class_cases() + whole_entry_cases()
-            + inert_default_cases())
+            + inert_default_cases() + key_kind_cases())
+
+
+# incoming keys of every hashable kind: (raw incoming key, the key it formats to) against KEY_CTX
+KEY_CTX = [['env', 'prod'], ['num', 7], ['nothing', None], ['tupv', {'t': ['prod', 1]}], ['sib', 'unchanged'],
+           ['sib-list', [1, [2]]]]
+FS = lambda *xs: K(1, S(*xs))                     # a frozenset
+KEY_KINDS = {
+    'str-expr': ('{env}', 'prod'),
+    'str-to-int': ('{num}', 7),
+    'str-to-none': ('{nothing}', None),
+    'str-to-tuple': ('{tupv}', {'t': ['prod', 1]}),
+    'int': (5, 5), 'bool': (True, True), 'none': (None, None), 'float': ({'f': [5, 1]}, {'f': [5, 1]}),
+    'bytes': ({'b': '7b656e767d'}, {'b': '7b656e767d'}),          # b'{env}': bytes are never formatted
+    'tuple-plain': (T('prod', 'port'), T('prod', 'port')),
+    'tuple-expr': (T('{env}', 'port'), T('prod', 'port')),        # what the YAML complex key ? ['{env}', port] loads as
+    'tuple-expr-int': (T('{num}', 'x', 2), T(7, 'x', 2)),
+    'tuple-nested': (T('a', T('{env}', T('{num}', None))), T('a', T('prod', T(7, None)))),
+    'frozenset-plain': (FS('p', 'q'), FS('p', 'q')),
+    'frozenset-expr': (FS('{env}', 'b'), FS('prod', 'b')),
+    'tuple-frozenset': (T('t', FS('{env}', 3)), T('t', FS('prod', 3))),
+}
+
+
+def has_cls_key(w, in_key=False):
+    """a class-wrapped container (frozenset) in KEY position somewhere in the wire value: the tree-level model has
+    one set kind (mutable, unhashable) and the heap-level model hashes by structure of plain cells only - such cases
+    are IMPLEMENTATION-ONLY, judged by the monitors written from the property text (keys / frame / table / defaults /
+    reference monitor)"""
+    if isinstance(w, list):
+        return any(has_cls_key(x, in_key) for x in w)
+    if isinstance(w, dict):
+        if 'cls' in w:
+            return in_key or has_cls_key(w['of'], in_key)
+        if 'd' in w:
+            return any(has_cls_key(k, True) or has_cls_key(v, in_key) for k, v in w['d'])
+        for tag in ('t', 'set'):
+            if tag in w:
+                return any(has_cls_key(x, in_key) for x in w[tag])
+        if 'jsonify' in w:
+            return has_cls_key(w['jsonify'], in_key)
+    return False
+
+
+def impl_only(case):
+    return (has_cls_key(case.get('ctx')) or has_cls_key(case.get('add'))
+            or any(has_cls_key(o.get('add')) for o in case.get('ops', [])))
+
+
+def key_kind_cases():
+    """"Both apply formatting to incoming keys": an incoming key of every hashable kind - str with an expression
+    (formatting to str / int / None / a tuple), int, bool, None, float, bytes, tuple (plain, with expression members,
+    nested), frozenset (plain, with an expression member, inside a tuple) - at the ROOT, under EXISTING mappings at
+    depth 1-3 (the levels merge_recurse / defaults_recurse walk themselves) and below a NEW path of depth 1-2 (formatted
+    as a whole subtree), with the formatted key absent / naming an existing list (merge: extended) / naming an
+    existing None (defaults: kept), for merge, set_defaults and the two steps."""
+    out = []
+    n = 0
+    for kind, (raw, fk) in KEY_KINDS.items():
+        for site in ('root', 'd1', 'd2', 'd3', 'new1', 'new2'):
+            for state in (('absent', 'list', 'none') if site[0] != 'n' else ('absent',)):
+                for op in ('merge', 'defaults', 'step-merge', 'step-default'):
+                    n += 1
+                    inc = ['{env}-443', D(['k', '{num}'])] if state == 'list' else 'val {env}'
+                    sib_new = [['sib-new', 'added {env}']]
+                    if site[0] == 'n':
+                        depth = 1 + int(site[-1])
+                        ctx = {'d': list(KEY_CTX)}
+                        add = nest(depth, raw, inc, sib_new)
+                    else:
+                        depth = 1 if site == 'root' else 1 + int(site[-1])
+                        ex = {'absent': _ABSENT, 'list': [80], 'none': None}[state]
+                        ctx = nest(depth, fk, ex, [['other', 1], [T('other', 'tuple'), 'kept']])
+                        ctx['d'] += list(KEY_CTX)
+                        add = nest(depth, raw, inc, sib_new)
+                    case = {'stream': f'keys:kinds:{kind}:{site}:{state}:{op}', 'ruamel': n % 4 == 0}
+                    if op in STEP_KEY:
+                        case.update(op='seq', ctx=ctx, ops=[{'op': op, 'add': add}])
+                    else:
+                        case.update(op=op, ctx=ctx, add=add)
+                    out.append(case)
+    # the reported shape: YAML complex keys naming existing paths at the top level and at depth 3, both operations
+    ctx = D(['env', 'prod'], [T('prod', 'port'), [80]],
+            ['svc', D(['web', D([T('prod', 'hosts'), T('a')], [T('prod', 'retries'), None], ['other', 1])])])
+    add = D([T('{env}', 'port'), [443]],
+            ['svc', D(['web', D([T('{env}', 'hosts'), T('b')], [T('{env}', 'retries'), 3], [T('{env}', 'timeout'), 30])])],
+            ['fresh', D([T('{env}', 'port'), '{env}-8080'])])
+    for op in ('merge', 'defaults', 'step-merge', 'step-default'):
+        out.append({'stream': f'keys:kinds:complex-yaml-keys:{op}', 'op': 'seq', 'ctx': ctx, 'ops': [{'op': op, 'add': add}]})
+    return out
 
 
 PY_LEN = lambda name: {'py': {'len': {'n': name}}}                                     # !py len(<name>)
@@ -1263,8 +1405,23 @@ def random_case(rng):
 
     def nkey(depth):
         if depth > 0 and rng.random() < 0.15:
-            return rng.choice([5, -1, None, T(1, 'a')])
+            # keys of every hashable kind; 3 % of them with a frozenset (implementation-only cases)
+            if rng.random() < 0.03:
+                return rng.choice([FS('a', 5), T('b', FS('key'))])
+            return rng.choice([5, -1, None, T(1, 'a'), T('a', T(5, 'b')), T('key', 'x_y'), {'f': [5, 1]}, {'b': '00'}])
         return rng.choice(KEYS)
+
+    def expr_key(k, holders):
+        """the (tuple / frozenset) key with its str members that are the value of a holder key replaced by '{holder}'"""
+        if isinstance(k, str):
+            return '{' + rng.choice(holders[k]) + '}' if k in holders and rng.random() < 0.7 else k
+        if isinstance(k, dict) and 'cls' in k:
+            return {'cls': k['cls'], 'of': expr_key(k['of'], holders)}
+        if isinstance(k, dict) and 't' in k:
+            return {'t': [expr_key(x, holders) for x in k['t']]}
+        if isinstance(k, dict) and 'set' in k:
+            return S(*[expr_key(x, holders) for x in k['set']])
+        return k
 
     def tree(depth, kind=None):
         kind = kind or rng.choice(['mapping', 'mapping', 'list', 'tuple', 'set', 'leaf', 'leaf'])
@@ -1309,12 +1466,17 @@ def random_case(rng):
     lit_keys = [name for name in ('lit1', 'lit2') if rng.random() < 0.7]
     for name in lit_keys:
         pairs.append([name, rng.choice(['L-one', 'two words', '7'])])
+    if rng.random() < 0.12:
+        # a non-str key at the ROOT of the context (invisible to expressions; an incoming container key may name it)
+        pairs.append([rng.choice([T(1, 'a'), T('a', T(5, 'b')), T('key', 'x_y'), 5, None]), tree(rng.randint(0, 2))])
     ctx = {'d': pairs}
 
     bytes_keys = set()     # root keys that hold / ever held bytes
 
     def scan_root(prs):
         for k, v in prs:
+            if not isinstance(k, str):
+                continue
             if isinstance(v, dict) and 'b' in strip_cls(v):
                 bytes_keys.add(k)
             if isinstance(v, str) and '{' not in v and '}' not in v and k not in str_keys:
@@ -1323,8 +1485,9 @@ def random_case(rng):
                 any_keys.append(k)
 
     scan_root(pairs)
-    root_exists = {k for k, _ in pairs}
-    containers = {k for k, v in pairs if isinstance(v, (list, dict)) and not (isinstance(v, dict) and ('o' in v or 'f' in v or 'b' in v))}
+    root_exists = {k for k, _ in pairs if isinstance(k, str)}
+    containers = {k for k, v in pairs if isinstance(k, str) and isinstance(v, (list, dict))
+                  and not (isinstance(v, dict) and ('o' in v or 'f' in v or 'b' in v))}
 
     def vexpr():
         if not any_keys or rng.random() < 0.1:
@@ -1352,9 +1515,9 @@ def random_case(rng):
         prs, seen = [], set()
         ex_pairs = existing['d'] if isinstance(existing, dict) and 'd' in existing else []
         # (an earlier incoming mapping may have expression keys: never re-used as a name)
-        cands = ([k for k, _ in ex_pairs if k not in ('lit1', 'lit2') and not (isinstance(k, str) and '{' in k)]
+        cands = ([k for k, _ in ex_pairs if k not in ('lit1', 'lit2') and '{' not in canon(k)]
                  + [rng.choice(KEYS) for _ in range(2)]
-                 + ([nkey(1)] if not at_root else []))
+                 + ([nkey(1)] if not at_root or rng.random() < 0.15 else []))
         rng.shuffle(cands)
         for k in cands[:rng.randint(0, 5)]:
             if canon(k) in seen:
@@ -1403,6 +1566,13 @@ def random_case(rng):
                 holders = [h for h, hv in ctx['d'] if hv == k and h in str_keys]
                 if holders:
                     kk = '{' + rng.choice(holders) + '}'
+            elif isinstance(k, dict) and ('t' in k or 'cls' in k) and rng.random() < 0.6:
+                # a container key (tuple / frozenset, nested): its str members as expressions whose value is the member
+                hold = {}
+                for h, hv in ctx['d']:
+                    if isinstance(hv, str) and isinstance(h, str) and h in str_keys:
+                        hold.setdefault(hv, []).append(h)
+                kk = expr_key(k, hold)
             if canon(kk) in seen and kk != k:
                 continue
             seen.add(canon(kk))
